@@ -21,7 +21,7 @@ class C03(object):
                    'conditioning); any other exception on exactly one side is a violation',
                    'cyclic class: agreement bound 1e-8*max(1,|v|) with both runs at tolerance 1e-13']
     required_counters = ('pairs.compared', 'values.compared', 'alias.pairs', 'ic_on_alias.pairs', 'model_text.pairs', 'after_earlier_parse.pairs', 'hygiene_names.pairs', 'traced_step.pairs', 'steady_search_accepted.pairs',
-                         'user_functions_in_derived_variables.pairs', 'after_variant_with_same_names.pairs')
+                         'user_functions_in_derived_variables.pairs', 'aliases_of_sources_that_are_zero_at_k0.pairs', 'after_variant_with_same_names.pairs')
 
     def n_cases(self, tier):
         return 300 if tier == 'quick' else 30000
@@ -42,6 +42,17 @@ class C03(object):
         if rng.random() < 0.3 and spec['aliases']:
             a = rng.choice(spec['aliases'])
             spec['ics'][a['name']] = G.nice(rng, 1.0, 9.0)
+        if idx % 10 in (1, 6):
+            # sources that are exactly ZERO at k=0 (a constant 0.0, an exogenous path starting at 0.0, a zero initial
+            # condition) reached through aliases that are declared AFTER the variables that use them
+            vals = [0.0] + [float(j + 1) * 2.5 for j in range(spec['maxtime'] + 2)]
+            spec['exos'].append({'name': 'zz_g', 'form': 'list', 'values': vals, 'text': repr(vals)})
+            spec['consts'].append({'name': 'zz_c0', 'value': 0.0})
+            spec['decos'].append({'name': 'zz_w', 'expr': 'zz_a + 5.0'})
+            spec['decos'].append({'name': 'zz_v', 'expr': 'zz_b2 - 3.0'})
+            spec['aliases'] += [{'name': 'zz_a', 'target': 'zz_g'}, {'name': 'zz_b2', 'target': 'zz_b1'},
+                                {'name': 'zz_b1', 'target': 'zz_c0'}]
+            spec['zero_sources'] = True
         if rng.random() < 0.3:
             # alias of the (default or user) time axis
             nm = G.fresh_names(rng, 1, avoid=G.all_value_names(spec) + [d['name'] for d in spec['decos']])[0]
@@ -227,6 +238,8 @@ class C03(object):
                         break
         if case.get('first_is_variant'):
             rec.count('after_variant_with_same_names.pairs')
+        if spec.get('zero_sources'):
+            rec.count('aliases_of_sources_that_are_zero_at_k0.pairs')
         if case.get('steady'):
             rec.count('steady_search_accepted.pairs')
         if spec['aliases']:
